@@ -96,7 +96,15 @@ Proof.
   - apply project_near, Hax.
 Qed.
 
-(* hence inside the rectangle grown by one unit when p3-p4 is one of its sides *)
+(* the hypotheses are satisfiable (the crossing of this edge with the side x = 10 of Rect64(-20,-26,10,4) used to be returned as
+   (9,-16), one unit off the side, before GetSegmentIntersection projected the point onto the side) *)
 Example gsi_on_rect_sat :
-  GetSegmentIntersection (98, -27) (-69, -7) (10, -26) (10, 4) (0, 0) = (true, (9, -16)) /\ near_side (10, -26) (10, 4) (9, -16).
-Proof. split; [vm_compute; reflexivity|]. unfold near_side, px, py; cbn [fst snd]. lia. Qed.
+  RectFloat.small_pt (98, -27) /\ axis_side (10, -26) (10, 4)
+  /\ fst (GetSegmentIntersection (98, -27) (-69, -7) (10, -26) (10, 4) (0, 0)) = true
+  /\ near_side (10, -26) (10, 4) (snd (GetSegmentIntersection (98, -27) (-69, -7) (10, -26) (10, 4) (0, 0))).
+Proof.
+  split; [unfold RectFloat.small_pt; cbn; lia|]. split; [left; cbn; lia|].
+  destruct (GetSegmentIntersection (98, -27) (-69, -7) (10, -26) (10, 4) (0, 0)) as [b q] eqn:E.
+  vm_compute in E. inversion E; subst. split; [reflexivity|].
+  unfold near_side, px, py; cbn [fst snd]. lia.
+Qed.
